@@ -241,7 +241,8 @@ def run(tier: str, seed: int, t0: float) -> int:
     # ---- enumerated expressions over the alphabet schema (fill queries; wrappers are leaves here)
     from prosemirror.model import Schema
     size = 3 if not thorough else 4
-    path = tlc.write_input({"schema": alpha_js, "atoms": ["a", "b", "c", "g"], "ranges": [[2, 2], [1, -1], [0, 2]], "maxSize": size}, "exprgen")
+    path = tlc.write_input({"schema": alpha_js, "atoms": ["a", "b", "c", "g"], "ranges": [[2, 2], [1, -1], [0, 2]], "maxSize": size,
+                            "words": exprparse.words_table(["a", "b", "c", "g"])}, "exprgen")
     r = tlc.run_tlc("MC_ExprGen", "MC_ExprGen.cfg", env={"PMV_INPUT": path}, workers=1, heap="4g")
     if not r.ok:
         raise core.MachineryError("MC_ExprGen: " + "; ".join(r.errors[:3]))
